@@ -562,6 +562,9 @@ func reachFromAvoiding(fn *ssa.Function, start, target *ssa.BasicBlock, g Guard)
 		if n := len(s.b.Instrs); n > 0 {
 			ifi, _ = s.b.Instrs[n-1].(*ssa.If)
 		}
+		if blockNeverReturns(s.b) {
+			continue // log.Fatal*/os.Exit/panic: control does not leave this block
+		}
 		for i, succ := range s.b.Succs {
 			if ifi != nil {
 				branch := i == 0
@@ -892,4 +895,35 @@ func describe(in ssa.Instruction) string {
 		return v.Name() + " = " + in.String()
 	}
 	return in.String()
+}
+
+// noReturnCall: calls after which control does not continue.
+func noReturnCall(in ssa.Instruction) bool {
+	ci, ok := in.(ssa.CallInstruction)
+	if !ok {
+		return false
+	}
+	if _, isGo := in.(*ssa.Go); isGo {
+		return false
+	}
+	if _, isDefer := in.(*ssa.Defer); isDefer {
+		return false
+	}
+	switch calleeName(ci) {
+	case "log.Fatal", "log.Fatalf", "log.Fatalln", "log.Panic", "log.Panicf", "log.Panicln", "os.Exit", "(*log.Logger).Fatal", "(*log.Logger).Fatalf", "(*log.Logger).Fatalln", "runtime.Goexit", "builtin.panic":
+		return true
+	}
+	return false
+}
+
+func blockNeverReturns(b *ssa.BasicBlock) bool {
+	for _, in := range b.Instrs {
+		if noReturnCall(in) {
+			return true
+		}
+		if _, ok := in.(*ssa.Panic); ok {
+			return true
+		}
+	}
+	return false
 }
